@@ -54,6 +54,7 @@ def main():
     ap.add_argument("--jobs", default="8")
     ap.add_argument("--own-only", action="store_true", help="check only the property named in meta.json")
     ap.add_argument("--thorough", action="store_true")
+    ap.add_argument("--all-anchored", action="store_true", help="run every obligation anchored in a patched file, not only those naming a patched function")
     a = ap.parse_args()
     path = os.path.join(VERIF, "selftest", "results.json")
     results = json.load(open(path)) if os.path.exists(path) else {}
@@ -82,6 +83,41 @@ def main():
             import registry
             import check as chk
             obs = [o for o in registry.OBLIGATIONS if o["anchor"] in patched]
+            if not a.all_anchored and obs:
+                # narrow to the obligations whose functions are named in the patch (hunk headers / changed fn lines); the full
+                # anchored set is used when nothing matches (or with --all-anchored)
+                import re as _re
+                toks = set()
+                cur_file, old_line = None, 0
+                for l in open(d):
+                    if l.startswith("--- a/"):
+                        cur_file = l[6:].strip()
+                        continue
+                    m_ = _re.match(r"@@ -(\d+)", l)
+                    if m_:
+                        old_line = int(m_.group(1))
+                        continue
+                    if l.startswith("+++") or cur_file is None:
+                        continue
+                    if l.startswith("-") or l.startswith("+"):
+                        # enclosing function of this changed line in the unchanged source: nearest `fn name` above it
+                        try:
+                            src = open(os.path.join("/repo", cur_file)).read().splitlines()
+                        except OSError:
+                            src = []
+                        i = min(old_line, len(src)) - 1
+                        while i >= 0:
+                            mm = _re.search(r"\bfn\s+(\w+)", src[i])
+                            if mm:
+                                toks.add(mm.group(1))
+                                break
+                            i -= 1
+                    if not l.startswith("+"):
+                        old_line += 1
+                toks |= set(meta.get("functions", []))
+                narrowed = [o for o in obs if any(_re.search(r"\b%s\b" % _re.escape(t), " ".join(o["fns"])) for t in toks)]
+                if narrowed:
+                    obs = narrowed
             if not obs:
                 r = run_with_patch(d, [meta["property"]], a.jobs)
                 caught = [p for p, v in r.items() if v["exit"] == 1]
